@@ -47,6 +47,12 @@ func (w *World) startCap(finish func(*World)) {
 		w.finalChecks(true)
 		finish(w)
 	}()
+	// last resort: if the harness itself is wedged (the cap handler could not
+	// finish), end the run without touching any harness lock
+	go func() {
+		time.Sleep(capD + 2*time.Minute)
+		writeResultAndExit(&spec.RunResult{Property: w.Spec.Property, Seed: w.Spec.Seed, CapHit: true, Harness: []string{"harness wedged: the virtual-time cap handler did not finish"}})
+	}()
 }
 
 func (w *World) stopAll() {
